@@ -219,6 +219,17 @@ func (m *Model) valid(sn any, v any, p Pos) Verdict {
 		np.Outer = nil
 		np.InNamedArr = false
 		np.ParentNoMethods = false
+		if ts, ok := t.(map[string]any); ok && m.dev("REF_UNTYPED_DEF_IS_ANY") && strings.Contains(ref, "#/") {
+			// as built: a $ref to a definition without type and without properties becomes interface{}
+			if _, hasType := ts["type"]; !hasType {
+				if _, hasProps := ts["properties"]; !hasProps {
+					if len(ts) > 0 {
+						m.fire("REF_UNTYPED_DEF_IS_ANY")
+					}
+					return Accept
+				}
+			}
+		}
 		return m.valid(t, v, np)
 	}
 	tl := typeList(s)
@@ -242,8 +253,8 @@ func (m *Model) valid(sn any, v any, p Pos) Verdict {
 		if p.Kind == "prop" && p.Optional {
 			_, hasDefault := s["default"]
 			nn := nonNullTypes(tl)
-			if hasDefault && !hasEnum {
-				return Accept
+			if hasDefault {
+				return Accept // "absent (or null) -> default", also for enum-typed properties
 			}
 			if !hasEnum && len(nn) == 1 && (nn[0] == "string" || nn[0] == "number" || nn[0] == "integer" || nn[0] == "array") {
 				return Accept // "an absent or null optional value is never checked"
@@ -761,6 +772,21 @@ func (m *Model) asBuiltEarly(s S, tl []string, hasEnum bool, v any, p Pos) (Verd
 			if nn[0] == "array" && jsonv.Kind(v) == "array" {
 				m.fire("ADDL_NONPRIMITIVE_UNTYPED")
 				return Accept, true
+			}
+		}
+	}
+	// null for a defaulted enum-typed property reaches the enum's UnmarshalJSON, which looks null up in the value table
+	if m.dev("DEFAULT_ENUM_NULL_REJECTED") && v == nil && hasEnum && p.Kind == "prop" {
+		if _, hasDefault := s["default"]; hasDefault {
+			isMember := false
+			for _, e := range s["enum"].([]any) {
+				if e == nil {
+					isMember = true
+				}
+			}
+			if !isMember {
+				m.fire("DEFAULT_ENUM_NULL_REJECTED")
+				return m.reject(p, "as built: null for a defaulted enum property is rejected"), true
 			}
 		}
 	}
